@@ -39,7 +39,7 @@ class CHECK(Check):
     pid = "C04"
     entry = "REGFILE"
     theorems = ["C04_total", "C04_one_element_per_line", "C04_accounting", "C04_dispatch_first_match", "C04_default_verbatim", "C04_data_local",
-                "C04_identifier_found", "C04_identifier_literal", "C04_identifier_window"]
+                "C04_identifier_found", "C04_identifier_literal", "C04_identifier_window", "C04_dispatch_denotation"]
     rule = ("register lists of 1-4 types drawn from an identifier pool with substring relations (A, AB, B, 'AB ', BA, ...) "
             "and identifier windows >= the identifier length so that declaration order matters x text contents of 0-12 "
             "lines from a grammar (well-formed lines written by the types, truncated, extended, identifier shifted out of "
